@@ -4,7 +4,7 @@ CONSTANTS
   BlockSize = 5
   HeaderLen = 2
   ReplaySkipsIoErrors = FALSE
-  RecoveryGcErrorsIgnored = FALSE
+  RecoveryGcErrorsIgnored = TRUE
   FaultModes = {"none", "once", "forever"}
 SPECIFICATION Spec
 INVARIANTS FaultReported Progress ResultSane
